@@ -16,7 +16,8 @@ fn mk_task(id: usize) -> Task {
 /// park/unpark token semantics. Model: `token` (at most one, no accumulation), `parked`.
 /// Ops: 0 park (only legal when the task is running, i.e. Runnable and not parked),
 ///      1 unpark, 2 spurious wake-up by the scheduler (unblock of a task blocked with
-///      allow_spurious_wakeups), 3 the task blocks on something else (only when running).
+///      allow_spurious_wakeups), 3 the task blocks on something else (only when running),
+///      4 the primitive the task is blocked on releases it (unblock).
 fn park_seq<const L: usize>() {
     let mut t = mk_task(1);
     let mut token = false;
@@ -25,7 +26,7 @@ fn park_seq<const L: usize>() {
     let mut i = 0;
     while i < L {
         let op: u8 = kani::any();
-        kani::assume(op <= 3);
+        kani::assume(op <= 4);
         match op {
             0 => {
                 kani::assume(!parked && !blocked_other);
@@ -66,10 +67,18 @@ fn park_seq<const L: usize>() {
                 assert!(!token);
                 kani::cover!(true, "spurious wake-up of a parked task");
             }
-            _ => {
+            3 => {
                 kani::assume(!parked && !blocked_other);
                 t.block(false);
                 blocked_other = true;
+            }
+            _ => {
+                // a mutex / channel / join the task was blocked on releases it: a pending unpark
+                // token must survive (it is only ever consumed by park)
+                kani::assume(blocked_other);
+                t.unblock();
+                blocked_other = false;
+                kani::cover!(token, "released by a primitive while holding an unpark token");
             }
         }
         // invariants of the property
@@ -104,18 +113,21 @@ crate::harness! {
 /// Ops: 0 executor: poll returned Pending -> sleep_unless_woken (task is running)
 ///      1 somebody invokes the waker (abort() = wake unless finished)
 ///      2 the task finishes
+///      3 the task blocks in a synchronisation operation in the middle of its poll
+///      4 that operation releases it
 fn wake_seq<const L: usize>() {
     let mut t = mk_task(1);
     let mut woken = false;
     let mut asleep = false;
     let mut finished = false;
+    let mut blocked = false;
     let mut i = 0;
     while i < L {
         let op: u8 = kani::any();
-        kani::assume(op <= 2);
+        kani::assume(op <= 4);
         match op {
             0 => {
-                kani::assume(!asleep && !finished);
+                kani::assume(!asleep && !finished && !blocked);
                 t.sleep_unless_woken();
                 if woken {
                     assert!(t.runnable(), "C17: a task whose waker was invoked since its last poll was put to sleep (lost wake-up)");
@@ -137,13 +149,24 @@ fn wake_seq<const L: usize>() {
                     woken = true;
                 }
             }
-            _ => {
-                kani::assume(!asleep && !finished);
+            2 => {
+                kani::assume(!asleep && !finished && !blocked);
                 t.finish();
                 finished = true;
             }
+            3 => {
+                kani::assume(!asleep && !finished && !blocked);
+                t.block(false);
+                blocked = true;
+            }
+            _ => {
+                kani::assume(blocked);
+                t.unblock();
+                blocked = false;
+                kani::cover!(woken, "woken while blocked inside its poll");
+            }
         }
-        assert!(t.verif_woken() == woken || finished, "C17: wake flag differs from the model");
+        assert!(t.verif_woken() == woken || finished, "C17: wake flag differs from the model (a wake during the poll must be remembered)");
         assert!(t.sleeping() == asleep);
         assert!(t.finished() == finished);
         i += 1;
